@@ -321,21 +321,22 @@ def observe(L, params, via_vars=False, lazy=False, kind=None, mods=NOMODS):
     src = '<dtml-in seq %s><dtml-call "rec(_)"><dtml-else>EMPTY</dtml-in>' % ' '.join(attrs)
     elems = elements(L, kind, mods.get('elem'))
     seq = container(kind, elems)
-    old = signal.signal(signal.SIGALRM, _alarm)
+    # CPU time of this process, not wall-clock time: a loaded machine must not look like a hanging rendering
+    old = signal.signal(signal.SIGVTALRM, _alarm)
     # a rendering takes milliseconds; one that has not returned after 2 s is taken not to terminate (once a few
     # have been seen the others are given less time, so a change that makes many of them hang cannot stall the check)
-    limit = 2.0 if HANGS[0] < 3 else 0.25
-    signal.setitimer(signal.ITIMER_REAL, limit)
+    limit = 3.0 if HANGS[0] < 3 else 1.0
+    signal.setitimer(signal.ITIMER_VIRTUAL, limit)
     try:
         out = shared_template(src)(seq=seq, rec=rec, **kw)
     except Hang:
         HANGS[0] += 1
-        return {'exc': 'Hang (no result after %.2f s)' % limit, 'src': src}
+        return {'exc': 'Hang (no result after %.2f s of CPU time)' % limit, 'src': src}
     except Exception as e:  # noqa
         return {'exc': type(e).__name__, 'src': src}
     finally:
-        signal.setitimer(signal.ITIMER_REAL, 0)
-        signal.signal(signal.SIGALRM, old)
+        signal.setitimer(signal.ITIMER_VIRTUAL, 0)
+        signal.signal(signal.SIGVTALRM, old)
     touched = None
     if kind not in ('iter', 'gen', 'range'):
         now = list(seq._d) if isinstance(seq, NegSeq) else list(seq)
